@@ -12,6 +12,7 @@ import Driver.BarrierDrv
 import Driver.LatchDrv
 import Driver.OnceDrv
 import Driver.EraseDrv
+import Driver.MtxDrv
 /-! `driver <model>`: reads harness output (cases) on stdin, prints one verdict line per case. -/
 open Driver
 
@@ -31,6 +32,7 @@ def dispatch (model : String) (c : Case) : String :=
   | "once" => OnceDrv.runCase c
   | "c09l" => if c.get "kind" == "latch" then LatchDrv.runCase c else OnceDrv.runCase c
   | "erase" => EraseDrv.runCase c
+  | "mtx" => MtxDrv.runCase c
   | _ => s!"case {c.id} reject 0 unknown-model-{model}"
 
 def main (args : List String) : IO UInt32 := do
